@@ -2,6 +2,7 @@ import RoaringModel.Lemmas.CodecWF
 import RoaringModel.Lemmas.Parser
 import RoaringModel.Lemmas.RoundTrip
 import RoaringModel.Lemmas.EncodeSpec
+import RoaringModel.Lemmas.TreemapCodec
 /-!
 # C05 — serialization is exact, deterministic and format-conformant (32-bit half)
 -/
@@ -59,5 +60,60 @@ example : BitmapWF [{ key := 0, store := .array [1, 5, 65535] }, { key := 65535,
   simp only [List.mem_cons, List.not_mem_nil, or_false] at hc
   rcases hc with rfl | rfl <;> refine ⟨by decide, by decide, ?_, by decide, by decide⟩ <;>
     (intro x hx; simp only [List.mem_cons, List.not_mem_nil, or_false] at hx; omega)
+
+end Roaring.C05
+
+/-!
+# C05, 64-bit half — `RoaringTreemap` (treemap/serialization.rs)
+
+Lifted from the 32-bit theorems above through the bucket loop (`Lemmas/TreemapCodec.lean`); nothing about
+the 32-bit format is re-proved.
+-/
+namespace Roaring.C05
+open Roaring Roaring.Parser
+
+/-- well-formed treemap, as the codec sees it: keys strictly ascending `u32`s, every partition `BitmapWF` and
+    not the empty bitmap (the invariant of every API-built value; `Treemap.WFd` implies it) -/
+abbrev TreemapWF (t : Treemap) : Prop := Treemap.SerWF BitmapWF t
+
+/-- `serialize_into` writes exactly `serialized_size()` bytes. -/
+theorem C05_t_size (t : Treemap) (h : TreemapWF t) :
+    (Treemap.serialize t).length = Treemap.serializedSize t :=
+  Treemap.serialize_length t (fun p hp => C05_size p.2 (h.parts p hp).2.1)
+
+/-- The bytes are a `u64` partition count followed by (`u32` key, 32-bit stream) pairs in strictly ascending
+    key order, every 32-bit stream being the standard encoding of the partition (`C05_bytes_partial`). -/
+theorem C05_t_framing (t : Treemap) (h : TreemapWF t) :
+    Treemap.serialize t = u64le t.length ++ t.flatMap (fun p => u32le p.1 ++ Bitmap.serialize p.2) ∧
+    (t.map (·.1)).Pairwise (· < ·) ∧ leVal (u64le t.length) = t.length ∧
+    ∀ p ∈ t, leVal (u32le p.1) = p.1 :=
+  ⟨rfl, h.sorted, leVal_u64le _ (by have := h.length_lt; omega), fun p hp => leVal_u32le _ (h.parts p hp).1⟩
+
+/-- Decoding the output with `deserialize_from` (`chk = true`) or `deserialize_unchecked_from` (`chk = false`),
+    in either build configuration, returns a value structurally equal to the original (hence `==`), and
+    leaves untouched whatever follows the serialisation in the stream. -/
+theorem C05_t_decode (chk dbg : Bool) (t : Treemap) (h : TreemapWF t) (rest : List Nat) :
+    Treemap.deserialize chk dbg (Treemap.serialize t ++ rest) = .ok (t, rest) :=
+  Treemap.deserialize_serialize chk dbg (fun b hb r => C05_decode chk dbg b hb r) t h rest
+
+theorem C05_t_decode_eq (chk dbg : Bool) (t : Treemap) (h : TreemapWF t) :
+    ∃ t', Treemap.deserialize chk dbg (Treemap.serialize t) = .ok (t', []) ∧ t' = t := by
+  refine ⟨t, ?_, rfl⟩
+  have := C05_t_decode chk dbg t h []
+  simpa using this
+
+/-- a treemap with the lowest and the highest partition key meets `TreemapWF` -/
+example : TreemapWF [(0, [{ key := 0, store := .array [1, 5, 65535] }]),
+                     (4294967295, [{ key := 65535, store := .array [0] }])] := by
+  refine ⟨by simp [Treemap.KeysSorted, Treemap.keys, TL.Sorted], ?_⟩
+  intro p hp
+  simp only [List.mem_cons, List.not_mem_nil, or_false] at hp
+  rcases hp with rfl | rfl <;> simp [BitmapWF, StoreWF]
+
+/-- concrete bytes (no hypothesis): count 2, key 0 + stream, key `u32::MAX` + stream -/
+example : Treemap.serialize [(0, [{ key := 0, store := .array [5] }]), (4294967295, [{ key := 0, store := .array [5] }])]
+    = [2, 0, 0, 0, 0, 0, 0, 0,
+       0, 0, 0, 0, 58, 48, 0, 0, 1, 0, 0, 0, 0, 0, 0, 0, 16, 0, 0, 0, 5, 0,
+       255, 255, 255, 255, 58, 48, 0, 0, 1, 0, 0, 0, 0, 0, 0, 0, 16, 0, 0, 0, 5, 0] := by decide
 
 end Roaring.C05
